@@ -71,8 +71,8 @@ type c10Case struct {
 	SrcState map[string]string // how the source file imports each path ("" plain, "z1" alias, ".")
 	DstState map[string]string // how the target file imports each path ("absent", "", "z", ".")
 	SamePkg  bool
-	Hops     int // 1: source -> target; 2: source -> middle -> target
-	Decl     int // which declaration is moved
+	Hops     int  // 1: source -> target; 2: source -> middle -> target
+	Decl     int  // which declaration is moved
 	Goast    bool // the source file is decorated with the goast resolver (no type information)
 }
 
